@@ -24,10 +24,9 @@ def _e1(ctx, thorough):
                     label='10 clean configurations: 1..4 stages, limits 1/2/unlimited, pool 0..2, <= 4 items')
     pc.negative_control(ctx, 'MC_neg_single.cfg', 'AllDelivered', 'one-stage pipeline on a zero-thread pool before the fix')
     if thorough:
-        ctx.check_model(pc.SPEC, 'MCPipeline.tla', 'MC_clean_big.cfg', WHAT, workers=4, vacuity_exempt=VAC, timeout=1500,
+        ctx.check_model(pc.SPEC, 'MCPipeline.tla', 'MC_clean_big.cfg', WHAT, workers=4, vacuity_exempt=pc.SUPP, timeout=1500,
                         label='larger clean configurations (3 workers, 4 items, 4 stages)')
-        ctx.check_model(pc.SPEC, 'MCPipeline.tla', 'MC_live.cfg', WHAT + ' (termination under fairness)', workers=4,
-                        vacuity_exempt=VAC + ('PlWuLoadOut', 'PlWuHasExc', 'PlWuDeq', 'PlUnlHasExc', 'PlSchUnl'), timeout=1500,
+        ctx.check_model(pc.SPEC, 'MCPipeline.tla', 'MC_live.cfg', WHAT + ' (termination under fairness)', workers=4, vacuity_exempt=pc.SUPP, timeout=1500,
                         label='liveness: <>Returned')
 
 
